@@ -4,8 +4,7 @@
 EXTENDS Linter
 FilesC == {"a", "a2", "callee", "b", "out"}
 RepoOfC == [f \in FilesC |-> CASE f \in {"a", "a2", "callee"} -> "repo" [] f = "b" -> "repo-b" [] OTHER -> "none"]
-UsesC == [f \in FilesC |-> IF f \in {"a", "a2"} THEN <<"callee">> ELSE <<>>]
-CalleeSpecC == [f \in FilesC |-> IF f = "callee" THEN "callee" ELSE "none"]
+ProgC == [f \in FilesC |-> IF f \in {"a", "a2"} THEN <<<<"use", "callee">>>> ELSE IF f = "callee" THEN <<<<"reg", "callee">>>> ELSE <<>>]
 NamePrefixC == {<<"repo", "repo-b">>}
 SpecInit == Init /\ [][FALSE]_vars
 =============================================================================
